@@ -251,10 +251,13 @@ int start(m_mod_t *mod, bool starting) {
         break;
     case -1:
         /* on_start() hook returned false, we need to stop this module right away (unless the hook already did) */
-        if (m_mod_is(mod, M_MOD_RUNNING | M_MOD_PAUSED)) {
-            stop(mod, true);
-        }
         ret = 0;
+        if (m_mod_is(mod, M_MOD_RUNNING | M_MOD_PAUSED)) {
+            /* Its on_stop() hook may deregister the module: tell our callers that it is gone, it may have been freed already */
+            if (stop(mod, true) == -ENOENT) {
+                ret = -ENOENT;
+            }
+        }
         break;
     case -ENOENT:
         // module was deregistered in on_start() hook
